@@ -4,7 +4,7 @@
    Definitions only. *)
 From Coq Require Import String List Arith Bool ZArith Lia.
 Import ListNotations.
-From NP Require Import Base Values Arrow Abs Kernels.
+From NP Require Import Base Values Arrow Abs Kernels Logical.
 
 Local Open Scope nat_scope.
 
@@ -114,24 +114,6 @@ Definition m_getitem_int (p : chunked) (z : Z) : res (option (list (list val))) 
   | Some i => Ok (nth i (m_rows p) None)
   | None => Err
   end.
-
-(* CPython slice.indices(n) followed by range(): the selected positions *)
-Definition py_slice_positions (start stop step : option Z) (n : nat) : res (list nat) :=
-  let nz := Z.of_nat n in
-  let st := match step with Some s => s | None => 1%Z end in
-  if (st =? 0)%Z then Err else
-  let lower := if (st <? 0)%Z then (-1)%Z else 0%Z in
-  let upper := if (st <? 0)%Z then (nz - 1)%Z else nz in
-  let clamp (o : option Z) (dflt : Z) :=
-    match o with
-    | None => dflt
-    | Some v => if (v <? 0)%Z then Z.max (v + nz) lower else Z.min v upper
-    end in
-  let a := clamp start (if (st <? 0)%Z then upper else lower) in
-  let b := clamp stop (if (st <? 0)%Z then lower else upper) in
-  let cnt := if (st >? 0)%Z then Z.max 0 ((b - a + st - 1) / st)
-             else Z.max 0 ((a - b - st - 1) / (- st)) in
-  Ok (map (fun k => Z.to_nat (a + Z.of_nat k * st)) (seq 0 (Z.to_nat cnt))).
 
 Definition m_getitem_slice (p : chunked) (start stop step : option Z) : res chunked :=
   res_map (fun pos => k_take p (map Some pos)) (py_slice_positions start stop step (m_len p)).
@@ -245,11 +227,13 @@ Definition m_setitem (p : chunked) (key : skey) (v : sval) : res chunked :=
   (* key -> (mask, argsort) | done | error *)
   let prep : res (option (list bool * option (list nat))) :=
     match key with
+    (* an integer or a slice becomes the array of its positions, np.arange(n)[key] *)
     | KInt z => match norm_index n z with
-                | Some i => Ok (Some (mask_of_positions n [i], None))
+                | Some i => Ok (Some (mask_of_positions n [i], Some (unique_first_index [i])))
                 | None => Err end
     | KSlice a b s => match py_slice_positions a b s n with
-                      | Ok pos => Ok (Some (mask_of_positions n pos, None))
+                      | Ok [] => Ok None
+                      | Ok pos => Ok (Some (mask_of_positions n pos, Some (unique_first_index pos)))
                       | Err => Err end
     | KMask m => if length m =? n then (if n =? 0 then Ok None else Ok (Some (m, None))) else Err
     | KIdx ix => match ix with
